@@ -14,7 +14,9 @@ import (
 	"net/http/httptest"
 	"os"
 	"path/filepath"
+	"sort"
 	"strings"
+	"sync"
 	"time"
 
 	"github.com/negasus/haproxy-spoe-go/action"
@@ -457,6 +459,66 @@ func handlerVsReload() *mc.SchedOpts {
 			st := x.Vals["st"].(*mgrState)
 			st.cancel()
 			os.RemoveAll(st.root)
+		}}
+}
+
+// unparsableHeaders: two transactions whose header block cannot be parsed (each continues
+// "without any headers") are read by the handler's own message reader while a flow's
+// header-setting action is applied to each; neither may see a header set on the other, and a
+// well-formed transaction read afterwards sees exactly its own headers.
+func unparsableHeaders() *mc.SchedOpts {
+	type obs struct{ foreign []string }
+	msg := func(id, headers string) *message.Message {
+		m := spoeRequest(id)
+		k := kv.NewKV()
+		for _, f := range []string{"id", "sequence_id"} {
+			k.Add(f, id)
+		}
+		k.Add("method", "GET")
+		k.Add("scheme", "https")
+		k.Add("url", "h.com/a")
+		k.Add("path", "/a")
+		k.Add("query", "")
+		k.Add("headers", headers)
+		k.Add("body", []byte(""))
+		m.KV = k
+		return m
+	}
+	return &mc.SchedOpts{Name: "two-requests-unparsable-header-block", MaxT: 0,
+		Focus: []string{"lunar/engine/routing", "lunar/engine/utils"},
+		Body: func(x *mc.Exec) {
+			o := &obs{}
+			x.Vals["obs"] = o
+			var mu sync.Mutex
+			for _, id := range []string{"t1", "t2"} {
+				id := id
+				x.Go(id, func() {
+					args := routing.VerifReadRequestArgs(msg(id, "accept: */*\r\nx-trace: 0123456789abcd"))
+					_ = routing.VerifReqActions(args, []actions.ReqLunarAction{&actions.ModifyHeadersAction{HeadersToSet: map[string]string{"x-set-for-" + id: "1"}}})
+					mu.Lock()
+					for k := range args.Headers {
+						if k != "x-set-for-"+id {
+							o.foreign = append(o.foreign, fmt.Sprintf("%s sees %q", id, k))
+						}
+					}
+					mu.Unlock()
+				})
+			}
+		},
+		Check: func(x *mc.Exec) (string, string) {
+			o := x.Vals["obs"].(*obs)
+			if x.Horizon {
+				return "", ""
+			}
+			if len(o.foreign) > 0 {
+				sort.Strings(o.foreign)
+				return "FOREIGN-HEADER", fmt.Sprintf("transactions with an unparsable header block share a header set: %v", o.foreign)
+			}
+			later := routing.VerifReadRequestArgs(msg("t3", "accept: */*\r\nx-trace: 0123456789abcd"))
+			if len(later.Headers) != 0 {
+				return "FOREIGN-HEADER:later-transaction", fmt.Sprintf("a later transaction with an unparsable header block starts with headers %v", later.Headers)
+			}
+			return "", ""
 		}}
 }
 
